@@ -362,6 +362,7 @@ type c05Probe struct {
 	checkedLoads, loadsOverContent, remarshals, builds int64
 	shape                                              []string
 	failedLoads, legacyLoads, poisoned                 int64
+	legacyChecked, legacyOverContent, legacyRoundTrips int64
 	inconclusive                                       string
 	diskChunks                                         int64
 }
@@ -550,7 +551,7 @@ func (c *C05Scn) lifecycle(y func(), pr *c05Probe) (outs []string, viol *Violati
 			inst = fresh(enc)
 			var err error
 			var pan string
-			capCall(loadCap(refLoad[c.StartSrc]), func() { err, pan = loadVia(inst, "direct", read(c.StartSrc)) })
+			capCall(tightLoadCap(refLoad[c.StartSrc]), func() { err, pan = loadVia(inst, "direct", read(c.StartSrc)) })
 			if pan != "" && err == nil {
 				err = fmt.Errorf("panic: %s", pan)
 			}
@@ -587,9 +588,46 @@ func (c *C05Scn) lifecycle(y func(), pr *c05Probe) (outs []string, viol *Violati
 			}
 			var err error
 			var pan string
-			capCall(refLoadCap, func() { err, pan = loadVia(inst, "direct", append([]byte{}, f.Data...)) })
+			entry := []string{"direct", "proto", "index"}[(hi+len(c.History))%3]
+			// reference first: the same archived bytes into a fresh instance, alone
+			twin := fresh(enc)
+			var terr error
+			var tpan string
+			loadSteps, okRef := refCall(func() { terr, tpan = loadVia(twin, "direct", append([]byte{}, f.Data...)) })
+			if !okRef {
+				return outs, nil
+			}
+			lcap := int64(refLoadCap)
+			if terr == nil && tpan == "" && y == nil {
+				lcap = tightLoadCap(loadSteps)
+			}
+			capCall(lcap, func() { err, pan = loadVia(inst, entry, append([]byte{}, f.Data...)) })
 			pr.legacyLoads++
 			outs = append(outs, fmt.Sprintf("legacy:%v:%s", err, pan))
+			// (the zero value has no encoder and cannot decode the values every
+			// archived stream carries: nothing to compare)
+			if terr == nil && tpan == "" && enc == fixtureEnc && c.Start != "zero" {
+				// The residue and round-trip clauses quantify over every loaded trie,
+				// streams of older layouts included: the instance must answer as a fresh
+				// instance given the same archived bytes (differential; whether those
+				// answers are RIGHT is C06 and not judged here), marshal to the same
+				// bytes, and that stream must round-trip.
+				if pan == panStepCap {
+					fail("load-does-not-return", "legacy-load-into-"+holdsKind(holds, -3), fmt.Sprintf("%s: loading the archived stream %s (entry %s) into an instance that held %s did not return within %d steps; into a fresh instance it takes %d", step, f.Name, entry, holdsStr(holds), lcap, loadSteps), "", "")
+					break
+				}
+				if err != nil || pan != "" {
+					fail("load-failed", "legacy-load-into-"+holdsKind(holds, -3), fmt.Sprintf("%s: the archived stream %s loads into a fresh instance but not (entry %s) into an instance that held %s: err=%v panic=%s", step, f.Name, entry, holdsStr(holds), err, pan), "", "")
+					break
+				}
+				if v := c.checkLegacy(inst, twin, loadSteps, f, entry, holds, step, y, pr, refCall, capCall); v != nil {
+					if v.Oracle == "" {
+						return outs, nil // reference over budget: inconclusive
+					}
+					viol = v
+					break
+				}
+			}
 			holds = -1
 		case "failcut", "failver":
 			if !ok[h.Src] {
@@ -603,7 +641,11 @@ func (c *C05Scn) lifecycle(y func(), pr *c05Probe) (outs []string, viol *Violati
 			}
 			var err error
 			var pan string
-			capCall(refLoadCap, func() { err, pan = loadVia(inst, "direct", b) })
+			fcap := int64(refLoadCap)
+			if y == nil && refLoad[h.Src] > 0 {
+				fcap = tightLoadCap(refLoad[h.Src]) // a rejected load cannot cost more than the complete one
+			}
+			capCall(fcap, func() { err, pan = loadVia(inst, "direct", b) })
 			pr.failedLoads++
 			outs = append(outs, fmt.Sprintf("%s:%v:%s", h.Op, err != nil, pan))
 			// nothing is asserted here (C07 has its own check); the instance is
@@ -624,12 +666,12 @@ func (c *C05Scn) lifecycle(y func(), pr *c05Probe) (outs []string, viol *Violati
 			var err error
 			var pan string
 			if y == nil {
-				withStepCap(loadCap(refLoad[i]), func() { err, pan = loadVia(inst, entry, buf) })
+				withStepCap(tightLoadCap(refLoad[i]), func() { err, pan = loadVia(inst, entry, buf) })
 			} else {
 				err, pan = loadVia(inst, entry, buf)
 			}
 			if pan == panStepCap {
-				fail("load-does-not-return", "load-into-"+holdsKind(holds, i), fmt.Sprintf("%s: loading Marshal() of input %d (%s) into an instance that held %s did not return within %d steps; into a fresh instance it takes %d", step, i, c.Inputs[i].summary(), holdsStr(holds), loadCap(refLoad[i]), refLoad[i]), "", "")
+				fail("load-does-not-return", "load-into-"+holdsKind(holds, i), fmt.Sprintf("%s: loading Marshal() of input %d (%s) into an instance that held %s did not return within %d steps; into a fresh instance it takes %d", step, i, c.Inputs[i].summary(), holdsStr(holds), tightLoadCap(refLoad[i]), refLoad[i]), "", "")
 				break
 			}
 			if err != nil || pan != "" {
@@ -677,6 +719,81 @@ func (c *C05Scn) lifecycle(y func(), pr *c05Probe) (outs []string, viol *Violati
 		yield()
 	}
 	return outs, viol
+}
+
+// checkLegacy: inst has just loaded the archived stream f (successfully) over
+// whatever it held. A Violation with an empty Oracle means "inconclusive".
+func (c *C05Scn) checkLegacy(inst, twin *trie.SlimTrie, loadSteps int64, f *Fixture, entry string, holds int, step string, y func(), pr *c05Probe,
+	refCall func(func()) (int64, bool), capCall func(int64, func()) int64) *Violation {
+	mk := func(oracle, where, detail, exp, got string) *Violation {
+		return &Violation{Prop: "C05", Oracle: oracle, Where: where, Detail: detail, Expected: clip(exp, 400), Got: clip(got, 400)}
+	}
+	inconclusive := &Violation{}
+	// queries: a sample of the key set the archive was written from, mutations, absent strings
+	qr := NewRng(c.PermSeeds[0] ^ hash64("legacy-queries", f.Name))
+	var keys [][]byte
+	if ks := keysetOf(f.KeySet); len(ks) > 0 {
+		stride := 1 + len(ks)/400
+		for i := qr.Intn(stride); i < len(ks); i += stride {
+			keys = append(keys, []byte(ks[i]))
+		}
+	}
+	qs := genQueries(qr, keys, 24)
+	var want, got string
+	wantSteps, okRef := refCall(func() { want = battery(twin, qs, fixtureEnc, true, f.complete(), y) })
+	if !okRef {
+		return inconclusive
+	}
+	capCall(loadCap(wantSteps), func() { got = battery(inst, qs, fixtureEnc, true, f.complete(), y) })
+	pr.legacyChecked++
+	over := holds != -2
+	if over {
+		pr.legacyOverContent++
+	}
+	if want != got {
+		e, g := firstDiffLine(want, got)
+		return mk("residue", "legacy-load-into-"+holdsKind(holds, -3), fmt.Sprintf("%s: after loading the archived stream %s (entry %s) into an instance that held %s, answers differ from a fresh instance given the same bytes", step, f.Name, entry, holdsStr(holds)), e, g)
+	}
+	tb, terr2 := safeMarshal(twin)
+	if terr2 == errAborted {
+		return inconclusive
+	}
+	rb, rerr := safeMarshal(inst)
+	if terr2 != nil {
+		if rerr == nil {
+			return mk("residue", "remarshal-after-legacy-load", fmt.Sprintf("%s: Marshal() fails on a fresh instance that loaded %s but succeeds on the reused one", step, f.Name), fmt.Sprint(terr2), "<bytes>")
+		}
+		return nil
+	}
+	if rerr != nil || !bytes.Equal(rb, tb) {
+		return mk("residue", "remarshal-after-legacy-load-into-"+holdsKind(holds, -3), fmt.Sprintf("%s: after loading the archived stream %s (entry %s) into an instance that held %s, Marshal() differs from Marshal() of a fresh instance given the same bytes (first difference at offset %d, err=%v)", step, f.Name, entry, holdsStr(holds), firstDiff(rb, tb), rerr), digest(tb), digest(rb))
+	}
+	if sz := proto.Size(inst); sz != len(rb) {
+		return mk("size-mismatch", "proto.Size-legacy-loaded", fmt.Sprintf("%s: proto.Size of the instance that loaded %s differs from len(Marshal())", step, f.Name), fmt.Sprint(len(rb)), fmt.Sprint(sz))
+	}
+	// round trip of the legacy-loaded trie: Unmarshal(Marshal(t)) answers as t
+	rt := fresh(fixtureEnc)
+	var e2 error
+	var p2 string
+	capCall(tightLoadCap(10*loadSteps), func() { e2, p2 = loadVia(rt, "direct", append([]byte{}, rb...)) })
+	if p2 == panStepCap {
+		return mk("load-does-not-return", "load-of-remarshalled-legacy", fmt.Sprintf("%s: Marshal() of the trie loaded from %s does not load into a fresh instance within %d steps", step, f.Name, tightLoadCap(10*loadSteps)), "", "")
+	}
+	if e2 != nil || p2 != "" {
+		return mk("load-failed", "Unmarshal-of-remarshalled-legacy", fmt.Sprintf("%s: Marshal() of the trie loaded from %s does not load into a fresh instance: err=%v panic=%s", step, f.Name, e2, p2), "", "")
+	}
+	var got2 string
+	capCall(loadCap(wantSteps), func() { got2 = battery(rt, qs, fixtureEnc, true, f.complete(), y) })
+	if want != got2 {
+		e, g := firstDiffLine(want, got2)
+		return mk("roundtrip-answers-differ", "roundtrip-of-legacy-loaded", fmt.Sprintf("%s: Unmarshal(Marshal(t)) answers differently from t, t loaded from the archived stream %s", step, f.Name), e, g)
+	}
+	rb2, rerr2 := safeMarshal(rt)
+	if rerr2 != nil || !bytes.Equal(rb2, rb) {
+		return mk("remarshal-differs", "remarshal-of-roundtripped-legacy", fmt.Sprintf("%s: re-marshalling Unmarshal(Marshal(t)) does not reproduce Marshal(t), t loaded from %s (first difference at offset %d)", step, f.Name, firstDiff(rb2, rb)), digest(rb), digest(rb2))
+	}
+	pr.legacyRoundTrips++
+	return nil
 }
 
 func holdsStr(h int) string {
@@ -779,6 +896,9 @@ func executeC05(scn *Scenario) *RunResult {
 	res.Counters["fault.failed_load_in_history"] += pr.failedLoads
 	res.Counters["probe.legacy_load_in_history"] += pr.legacyLoads
 	res.Counters["probe.checked_loads"] += pr.checkedLoads
+	res.Counters["probe.legacy_loads_checked_against_fresh_twin"] += pr.legacyChecked
+	res.Counters["probe.legacy_loads_checked_over_other_content"] += pr.legacyOverContent
+	res.Counters["probe.legacy_loaded_tries_round_tripped"] += pr.legacyRoundTrips
 	res.Counters["fault.large_regular_build_between_two_builds"] += pr.poisoned
 	res.Counters["probe.checked_loads_over_other_content"] += pr.loadsOverContent
 	res.Counters["builds"] += pr.builds
@@ -790,7 +910,7 @@ func executeC05(scn *Scenario) *RunResult {
 	if c.Matrix {
 		res.Counters["transition_matrix_scenarios"]++
 	}
-	res.NonTrivial = pr.permNonIdentity >= 2 || pr.loadsOverContent > 0
+	res.NonTrivial = pr.permNonIdentity >= 2 || pr.loadsOverContent > 0 || pr.legacyOverContent > 0
 	if res.NonTrivial {
 		res.Distinct = []uint64{hash64(strings.Join(pr.shape, ","), c.historyString(), c.Start)}
 	}
